@@ -553,10 +553,16 @@ func gen(a Args, out *Out) {
 	if a.Thorough() {
 		deepTotal = int64(1)<<27 + 4096
 	}
+	if ws == 4 { // the 32-bit run: same sweep, smaller top size
+		deepTotal = int64(1)<<24 + 4096
+	}
 	for _, d := range []struct {
 		seed  uint64
 		total int64
 	}{{rng.Next(), 1<<10 + 64}, {rng.Next(), 1<<16 + 64}, {rng.Next(), 1<<20 + 64}, {rng.Next(), 1<<23 + 4096}, {rng.Next(), deepTotal}} {
+		if d.total > deepTotal {
+			continue
+		}
 		code, index, checked := deep(d.seed, d.total)
 		out.GoChecked += checked
 		out.Count("deep-buffer runs")
